@@ -4,6 +4,7 @@ import EinxModel.Cache.Freeze
 import EinxModel.Cache.Hash
 import EinxModel.Cache.Memo
 import EinxModel.Cache.Stack
+import EinxModel.Cache.KeyEq
 import EinxModel.Extracted.Cache
 open Lean Einx.Driver Einx.Cache
 
@@ -193,7 +194,12 @@ def handle (j : Json) : R Json := do
     let fb := freeze T b
     pure (Json.mkObj [("raw_eq", Json.bool (pyEq a b)), ("eq", Json.bool (pyEq fa fb)),
       ("hash_eq", Json.bool (pyHash T env fa == pyHash T env fb)), ("hit", Json.bool (keyHit T env fa fb)),
-      ("typed", Json.bool (typedEq (observe a) (observe b)))])
+      ("typed", Json.bool (typedEq (observe a) (observe b))),
+      -- the comparison of the tree being checked (`ConvertibleTensor.__eq__` on frozen concretes), the exact observation
+      -- and the guards of `pyEq_hash` / `frozen_key_eq_iff` (Props/C06Hash.lean)
+      ("eqF", Json.bool (keyEq T fa fb)), ("hitF", Json.bool (keyHitF T env fa fb)),
+      ("exact", Json.bool (exactEq (observeX a) (observeX b))),
+      ("wf", Json.bool (wfKeys fa && wfKeys fb)), ("flat", Json.bool (flatConv a && flatConv b))])
   | "pyhash" =>
     let T ← parseTable (← fld j "table")
     let env := (← getEnv j).toEnv
@@ -212,7 +218,8 @@ def handle (j : Json) : R Json := do
     let freshA := fresh.toArray
     let key : Nat → PyVal := fun i => keyOf T (callsA.getD i default)
     let compute : Nat → Outcome Nat := fun i => freshA.getD i (.raised "?")
-    let (m, outs) := run key (keyHit T env) id compute [] hist
+    let hit := if Einx.Extracted.convEqFrozen then keyHitF T env else keyHit T env
+    let (m, outs) := run key hit id compute [] hist
     pure (Json.mkObj [("outs", jArr (outs.map outcomeJson)), ("stored", jNat m.length)])
   | "stack" =>
     let cfgJ ← fld j "cfg"
